@@ -8,7 +8,7 @@ WIDE = list(range(13, 41)) + [159, 160, 161, 319, 320, 321, 2047, 2100]
 
 
 def describe(tier):
-    nmax = 11 if tier == 'quick' else 13
+    nmax = 12 if tier == 'quick' else 13
     return {
         'rule': 'BitwiseFFX: for every n in 2..%d and 3 DRBG keys, ALL 2^n inputs: image == {0,1}^n (bijection), every output has length n, '
                 'decrypt(encrypt(x)) == x and encrypt(decrypt(x)) == x; for n in {13..40,159,160,161,319,320,321,2047,2100} %d DRBG inputs each: '
@@ -25,12 +25,10 @@ def describe(tier):
 
 
 def units(tier, seed):
-    nmax = 11 if tier == 'quick' else 13
+    nmax = 12 if tier == 'quick' else 13
     us = []
     for n in range(2, nmax + 1):
         for ki in range(3):
-            if tier == 'quick' and n >= 11 and ki > 0:
-                continue
             us.append(('ffx/%d/%d' % (n, ki), {'kind': 'ffx', 'n': n, 'ki': ki}))
     for n in WIDE:
         us.append(('ffxw/%d' % n, {'kind': 'ffxw', 'n': n, 'count': 20 if n < 2000 else 6}))
@@ -156,7 +154,7 @@ def run_unit(p, tier, seed):
             r.v(PROPERTY, 'BitwiseFPEPRP', 'bijection', 'collision', {'n': 6}, 'permutation of 0..63', sorted(img))
         # several widths under ONE key in ONE process, through the PRP wrapper: every instance is a permutation of its own domain
         shared = Bitset(g.getrandbits(128) | (1 << 127), 128)
-        for n in (4, 6, 7, 9, 10, 6, 4):
+        for n in (12, 11, 10, 9, 8, 7, 6, 5, 4, 3, 2, 3, 4, 5, 6, 7, 8, 9, 10, 11, 12):
             prp = P(key_bit_length=128, message_bit_length=n)
             outs = [prp(shared, Bitset(x, n)) for x in range(1 << n)]
             r['evaluations'] += 1 << n
